@@ -139,6 +139,12 @@ def run(ctx):
     n = 300 if ctx.tier == "quick" else 6000
     scs += randoms(ctx.seed, n)
     scs += reloads(ctx.seed, 40 if ctx.tier == "quick" else 600)
+    # cancels of completed acts after the following steps have made partial progress (the C08 cancel family)
+    from . import c08
+    for k in range(30 if ctx.tier == "quick" else 400):
+        sc = c08.cancel_scenario(Rng(ctx.seed * 7919 + k), k)
+        sc["config"] = {"keep": True}
+        scs.append(sc)
     evaluate(ctx, scs)
     ctx.cov["rule"] = ("action x closing-state x target matrix (exhaustive, %d cases) + seeded random histories of valid and "
                        "invalid actions with partial queue releases (a third with catches and evictions) + the catch family reloaded at every quiescent point; non-trivial = >=2 terminal writes and >=3 accepted "
